@@ -490,6 +490,24 @@ def _r5(ctx, rep, se, cfg):
                       key(se, None, "%s cannot be bypassed for %s requests" % (L, pt)), se, n.exprs[0],
                       "a path accepts the order without the limit test: %s" % cfg.fmt_path(
                           cfg.path(cfg.entry, cfg.exit, [n.id] + refusals, blocked) or []))
+        # the figure compared is one computed from this order: with the limit set, every way to the test passes a
+        # definition of the order's own risk that is not a constant default (a default of 0.0 that survives when the
+        # computation is skipped makes the test vacuous)
+        if L in ("max_order_exposure", "max_selection_exposure"):
+            oe_defs = [x for x in cfg.live_nodes() if x.kind == "stmt" and isinstance(x.ast, ast.Assign)
+                       and "order_exposure" in [utext(t) for t in x.ast.targets]]
+            real = {x.id for x in oe_defs if not isinstance(x.ast.value, ast.Constant)}
+            for pt in ("PLACE", "REPLACE"):
+                blocked = set()
+                for x in conds:
+                    v = _pt_atom(x.exprs[0], pt, L)
+                    if v is not None:
+                        blocked.add((x.id, "F" if v else "T"))
+                refusals = [x.id for x in cfg.live_nodes() if any(call_name(c) == "_on_error" for c in calls_in(x))]
+                rep.check(bool(real) and cfg.all_paths_pass(cfg.entry, n.id, real | set(refusals), blocked), "R5",
+                          key(se, None, "%s (%s): the order's own risk is computed on every way to the test" % (L, pt)), se,
+                          n.exprs[0], "a path reaches the test with a constant default: %s" % cfg.fmt_path(
+                              cfg.path(cfg.entry, n.id, real | set(refusals), blocked) or []))
         # value dependencies
         value = o[2]
         deps = _deps(se, value)
